@@ -1,4 +1,9 @@
-"""C02 - dispatch: route, then sink/static by recency; exact 404/405/OPTIONS; suffix isolation; kwargs."""
+"""C02 - dispatch: route, then sink/static by recency; exact 404/405/OPTIONS; suffix isolation; kwargs.
+
+Per-call time limits are 30 s: the code under test has no loops, the limit only keeps the harness from blocking.
+(A 3 s limit fired spuriously on a machine with load average > 100, and SIGALRM raised inside falcon's generic
+exception handler turned into a 500 response.)
+"""
 PROP = 'C02'
 LEAN_MODULES = ['FalconModel.DispatchProofs']
 DRIVERS = ['dpdriver']
@@ -303,7 +308,7 @@ def _stack(ctx, root, asgi):
     loop = asyncio.new_event_loop() if asgi else None
 
     def arun(coro):
-        return loop.run_until_complete(asyncio.wait_for(coro, 3))
+        return loop.run_until_complete(asyncio.wait_for(coro, 30))
 
     def register(app, reg, objs, counter):
         kind = rnd.choice(['route', 'route', 'route', 'sink', 'sink', 'static', 'static'])
@@ -421,7 +426,7 @@ def _stack(ctx, root, asgi):
                     pass
         else:
             req = falcon.Request(ft.create_environ(method=method, path=path))
-            with alarm(3):
+            with alarm(30):
                 responder, params, resource, tmpl = app._get_responder(req)
                 resp = falcon.Response()
                 try:
@@ -443,7 +448,7 @@ def _stack(ctx, root, asgi):
         if not asgi:
             env = ft.create_environ(method=method, path=path)
             st = []
-            with alarm(3):
+            with alarm(30):
                 it = app(env, lambda s, h, e=None: st.append((s, h)))
                 try:
                     for _ in it:
